@@ -23,7 +23,12 @@ Definition cksum (b : bytes) : N :=
 (* lk_fin / lk_rin = RangeContainsKey on the fresh / re-opened table *)
 Record olookup := mkL { lk_t : N; lk_key : bytes; lk_fresh : get_res; lk_reopen : get_res; lk_fin : bool; lk_rin : bool }.
 (* a prefix scan over all tables of the run in order, concatenated *)
-Record oscan := mkS { sc_prefix : bytes; sc_fresh : option (list entry); sc_reopen : option (list entry) }.
+(* sc_lfresh / sc_lreopen: LevelList.ScanPrefixEntries over the level list {L0 = {}, L1 = the run's tables} built from
+   the fresh / the re-opened tables *)
+Record oscan := mkS { sc_prefix : bytes; sc_fresh : option (list entry); sc_reopen : option (list entry);
+                      sc_lfresh : option (list entry); sc_lreopen : option (list entry) }.
+(* LevelList.Get over the same two level lists *)
+Record olget := mkLG { lg_key : bytes; lg_fresh : get_res; lg_reopen : get_res }.
 (* the real bloom package on the run's keys: queried key, MightHave on the filter, MightHave after Encode/Decode *)
 Record obloom := mkB { bl_key : bytes; bl_has : bool; bl_has_dec : bool }.
 
@@ -31,7 +36,7 @@ Inductive wread := mkR (file : N) (after : N) (res : wal_res).
 
 Inductive case :=
 | TabC (deep : bool) (es : list entry) (target : N)            (* target 0 = TableWriter.Write, else WriteRun *)
-       (tables : list otable) (lookups : list olookup) (scans : list oscan) (blooms : list obloom)
+       (tables : list otable) (lookups : list olookup) (scans : list oscan) (blooms : list obloom) (lgets : list olget)
 | WalC (deep : bool) (s0 : N) (ops : list wop) (files : list bytes) (reads : list wread).
 
 (* ---------- equality tests ---------- *)
@@ -140,7 +145,7 @@ Definition opt_concat (l : list (option (list entry))) : option (list entry) :=
   fold_right (fun o acc => match o, acc with Some x, Some y => Some (x ++ y) | _, _ => None end) (Some []) l.
 
 Definition check_tab (deep : bool) (es : list entry) (target : N) (ts : list otable)
-           (lookups : list olookup) (scans : list oscan) (blooms : list obloom) : list N :=
+           (lookups : list olookup) (scans : list oscan) (blooms : list obloom) (lgets : list olget) : list N :=
   let chunks := if target =? 0 then [es] else write_run es target in
   let mts := if deep then map write_table chunks else map light_table chunks in
   let ochunks := map scan_of ts in
@@ -168,6 +173,11 @@ Definition check_tab (deep : bool) (es : list entry) (target : N) (ts : list ota
   (* prefix scans over the run *)
   flag (forallb (fun s => oentries_eqb (sc_fresh s) (Some (scan_spec es (sc_prefix s)))) scans) 104 ++
   flag (forallb (fun s => oentries_eqb (sc_reopen s) (Some (scan_spec es (sc_prefix s)))) scans) 105 ++
+  (* the split run read back as ONE sorted level (table selection by range included) *)
+  flag (forallb (fun s => oentries_eqb (sc_lfresh s) (Some (scan_spec es (sc_prefix s))) &&
+                          oentries_eqb (sc_lreopen s) (Some (scan_spec es (sc_prefix s)))) scans) 112 ++
+  flag (forallb (fun g => get_res_eqb (lg_fresh g) (get_spec es (lg_key g)) &&
+                          get_res_eqb (lg_reopen g) (get_spec es (lg_key g))) lgets) 113 ++
   (* split tables: none empty unless the run is empty, ranges = first/last key, disjoint and ascending *)
   flag (match es with [] => true | _ => forallb (fun c => negb (Nat.eqb (length c) 0)) ochunks end) 106 ++
   flag (forallb (fun t => range_is_first_last (ot_doc t) (ot_scan t)) ts &&
@@ -224,7 +234,7 @@ Definition check_wal (deep : bool) (s0 : N) (ops : list wop) (files : list bytes
 
 Definition check_case (c : case) : list N :=
   match c with
-  | TabC deep es target ts lookups scans blooms => check_tab deep es target ts lookups scans blooms
+  | TabC deep es target ts lookups scans blooms lgets => check_tab deep es target ts lookups scans blooms lgets
   | WalC deep s0 ops files reads => check_wal deep s0 ops files reads
   end.
 
